@@ -136,6 +136,29 @@ def run_fx(a, idx, tier):
                     r['out'] = 'raise:' + type(e).__name__
                     r['err'] = str(e)[:160]
                 runs.append(r)
+    # the same answer at another magnitude: a globally linear grammar whose constant rules carry a factor exp(-280) has all
+    # its Log-semiring values shifted by -280, whatever the method
+    am = AG.with_constant_marker(a)
+    if am is not None:
+        SH = 280.0
+        for method in METHODS:
+            tol = 1e-3
+            r = {'sr': 'fx', 'method': method, 'kmax': 1000, 'tolu': max(1, math.ceil(tol * max(1.0, 1.01 * maxc) * AG.FXS)), 'out': 'ok', 'warned': False, 'res': {},
+                 'tag': ['log', method, 'nj', 'float64', LEVEL, 'shifted_by_-280']}
+            try:
+                g = AG.build_fgg_fx_shifted(am, torch.float64, SH)
+                with warnings.catch_warnings(record=True) as wl:
+                    warnings.simplefilter('always')
+                    with torch.no_grad():
+                        sp = fggs.sum_products(g, method=method, semiring=AG.semiring_for('log', torch.float64), tol=tol, kmax=1000)
+                r['warned'] = any('index type mismatch' not in str(w.message) for w in wl)
+                for el, t in sp.items():
+                    if el.is_nonterminal:
+                        r['res'][el.name] = [interval_fx(math.exp(float(x) + SH) if float(x) + SH < 30 else math.inf) for x in t.to_dense().reshape(-1).tolist()]
+            except Exception as e:  # noqa
+                r['out'] = 'raise:' + type(e).__name__
+                r['err'] = str(e)[:160]
+            runs.append(r)
     return runs
 
 
